@@ -7,6 +7,7 @@ import (
 	"context"
 	"encoding/json"
 	"fmt"
+	"github.com/ipfs/go-cid"
 	"github.com/sourcenetwork/defradb/internal/db"
 	"sort"
 	"strings"
@@ -241,7 +242,13 @@ func (r *Runner) Replay(steps []Step) {
 		r.Res.Errors = append(r.Res.Errors, err.Error())
 		return
 	}
-	defer func() { main.n.Close(); twin.n.Close() }()
+	// a third node with the same history: the origin of the updates that reach the others through the merge path
+	src, err := r.newInst()
+	if err != nil {
+		r.Res.Errors = append(r.Res.Errors, err.Error())
+		return
+	}
+	defer func() { main.n.Close(); twin.n.Close(); src.n.Close() }()
 	for si := range steps {
 		st := &steps[si]
 		r.Res.Steps++
@@ -255,9 +262,41 @@ func (r *Runner) Replay(steps []Step) {
 				return
 			}
 			main.n = n
+		} else if st.Op == "remoteupdate" {
+			up := *st
+			up.Op = "update"
+			if err := r.apply(src, &up); err != nil {
+				r.violate("C19", "op-refused:update", si, "update (d=%d f=%d v=%d) on the origin node was refused: %v", st.D, st.F, st.V, err)
+				return
+			}
+			hd, err := src.n.Exec(r.Ctx, fmt.Sprintf(`query { latestCommits(docID: %q) { cid } }`, src.docIDs[st.D]))
+			if err != nil || len(cluster.Rows(hd, "latestCommits")) != 1 {
+				r.Res.Errors = append(r.Res.Errors, fmt.Sprint("origin heads: ", err))
+				return
+			}
+			hc, _ := cid.Decode(cluster.Rows(hd, "latestCommits")[0]["cid"].(string))
+			for _, in := range []*inst{main, twin} {
+				if _, err := cluster.CopyClosure(r.Ctx, src.n, in.n, hc); err != nil {
+					r.Res.Errors = append(r.Res.Errors, err.Error())
+					return
+				}
+				col, err := in.n.DB.GetCollectionByName(r.Ctx, "T")
+				if err != nil {
+					r.Res.Errors = append(r.Res.Errors, err.Error())
+					return
+				}
+				if err := in.n.Merge(r.Ctx, col.Version().CollectionID, in.docIDs[st.D], hc); err != nil {
+					r.violate("C19", "merge-refused", si, "the update of field f%d made on a node with the same schema history could not be merged: %v", st.F, err)
+					return
+				}
+			}
 		} else {
 			e1 := r.apply(main, st)
 			e2 := r.apply(twin, st)
+			if e3 := r.apply(src, st); (e3 == nil) != (e1 == nil) {
+				r.violate("C14", "behaves-differently", si, "%s: the node returned %v, the origin node with the same history %v", st.Op, e1, e3)
+				return
+			}
 			if (e1 == nil) != (e2 == nil) {
 				r.violate("C14", "behaves-differently", si, "%s: the restarted node returned %v, its never-restarted twin %v", st.Op, e1, e2)
 				return
